@@ -5,9 +5,11 @@
    notification per executed field, at any depth, in execution order.
 
    A request is a tree of field instances.  A resolver returns a value, an
-   error, panics, or fails on a non-null field (RFatal: the error escapes to
-   the nearest nullable parent, here always the enclosing object, or the
-   root).  A value may be deferred (a thunk): the notification of the field is
+   error, panics, or returns a value whose completion fails (RBad: nil for a
+   non-null type, a non-list for a list type).  Every such failure is one
+   field error; on a field of non-null type (nn) it escapes to the enclosing
+   selection, which is abandoned, and further through non-null parents up to
+   the nearest nullable field or the root.  A value may be deferred (a thunk): the notification of the field is
    finished when the resolver returns; the selection below it runs when the
    thunk is forced -- breadth first in response-key order for queries, depth
    first after each root field for mutations.  Children are listed in
@@ -17,14 +19,16 @@ From Coq Require Import List NArith Bool.
 Import ListNotations.
 Open Scope N_scope.
 
-Inductive rbeh := ROk | RErr | RPanic | RFatal.
-Definition is_fatal (fb : rbeh) : bool := match fb with RFatal => true | _ => false end.
-Definition rfails (fb : rbeh) : bool := match fb with ROk => false | _ => true end.
+Inductive rbeh := ROk | RErr | RPanic | RBad.
+(* the resolver itself failed: its notification is finished with an error *)
+Definition rfails (fb : rbeh) : bool := match fb with RErr | RPanic => true | _ => false end.
+(* the field contributes an error of its own *)
+Definition rerrs (fb : rbeh) : bool := match fb with ROk => false | _ => true end.
 
 (* the value: delivered now, a thunk that yields it, a thunk that fails *)
 Inductive tbeh := TNow | TLater | TLaterFail.
 
-Inductive node := Node (id : N) (rb : rbeh) (th : tbeh) (ch : list node).
+Inductive node := Node (id : N) (nn : bool) (rb : rbeh) (th : tbeh) (ch : list node).
 
 (* one resolver call: which field, what the resolver did *)
 Definition step := (N * rbeh)%type.
@@ -33,7 +37,7 @@ Definition step := (N * rbeh)%type.
    calls made before it returns, and whether a non-null error escapes *)
 Fixpoint imm (n : node) : list step * bool :=
   match n with
-  | Node id rb th ch =>
+  | Node id nn rb th ch =>
     let sub := (fix sel (l : list node) : list step * bool :=
                   match l with
                   | [] => ([], false)
@@ -41,7 +45,12 @@ Fixpoint imm (n : node) : list step * bool :=
                               if snd sc then (fst sc, true)
                               else let sr := sel r in (fst sc ++ fst sr, snd sr)
                   end) ch in
-    ((id, rb) :: match rb, th with ROk, TNow => fst sub | _, _ => [] end, is_fatal rb)
+    ((id, rb) :: match rb, th with ROk, TNow => fst sub | _, _ => [] end,
+     (* the error escapes this field iff its type is non-null and it failed
+        itself or an error escaped the selection below its (undeferred) value;
+        deferred values of non-null type whose forcing fails are outside the
+        model: they are treated as nullable *)
+     nn && (rerrs rb || match rb, th with ROk, TNow => snd sub | _, _ => false end))
   end.
 
 (* executePlannedSelection: fields in order, aborted by an escaping error *)
@@ -81,7 +90,7 @@ Definition forced (rb : rbeh) (th : tbeh) (ch : list node) : chunk :=
    at each deeper level *)
 Fixpoint lev (n : node) : chunk * list chunk :=
   match n with
-  | Node id rb th ch =>
+  | Node id nn rb th ch =>
     let sub := (fix levs (l : list node) : chunk * list chunk :=
                   match l with
                   | [] => (([], 0), [])
@@ -100,7 +109,7 @@ Fixpoint levs (l : list node) : chunk * list chunk :=
 (* depth first (mutations) *)
 Fixpoint dfs (n : node) : chunk :=
   match n with
-  | Node id rb th ch =>
+  | Node id nn rb th ch =>
     let sub := (fix ds (l : list node) : chunk :=
                   match l with
                   | [] => ([], 0)
